@@ -203,6 +203,18 @@ BYTE_SETS = [
 STRING_LISTS = [
     ("hdrConnectionSpecific", "lib/src/protocol/mux/pkawa.rs", r"fn is_connection_specific_header\(name: &\[u8\]\) -> bool \{([\s\S]*?)\n\}", r'compare_no_case\(name, b"([^"]+)"\)'),
     ("hdrTrailerElided", "lib/src/protocol/mux/pkawa.rs", r"if matches!\(\s+k\.as_ref\(\),([^)]+)\)", r'b"([^"]+)"'),
+    # --- Worker (C08): which proxies a request is destined to, which kinds ConfigState::dispatch accepts,
+    #     which kinds the main process scatters (variant names as byte strings) ---
+    ("wkAllVariants", "command/src/proto/command.rs", r"pub enum RequestType \{([\s\S]*?)\n    \}", r"\n\s+(\w+)\("),
+    ("wkDestHttp", "command/src/request.rs", r"match request_type \{\s*((?:\|?\s*RequestType::\w+\(_\)\s*)+)=> \{\s*proxy_destination\.to_http_proxy = true\s*\}", r"RequestType::(\w+)"),
+    ("wkDestHttps", "command/src/request.rs", r"((?:\|?\s*RequestType::\w+\(_\)\s*)+)=> proxy_destination\.to_https_proxy = true,", r"RequestType::(\w+)"),
+    ("wkDestTcp", "command/src/request.rs", r"((?:\|?\s*RequestType::\w+\(_\)\s*)+)=> \{\s*proxy_destination\.to_tcp_proxy = true\s*\}", r"RequestType::(\w+)"),
+    ("wkDestUdp", "command/src/request.rs", r"((?:\|?\s*RequestType::\w+\(_\)\s*)+)=> \{\s*proxy_destination\.to_udp_proxy = true\s*\}", r"RequestType::(\w+)"),
+    ("wkDestAll", "command/src/request.rs", r"((?:\|?\s*RequestType::\w+\(_\)\s*)+)=> \{\s*proxy_destination\.to_http_proxy = true;\s*proxy_destination\.to_https_proxy = true;\s*proxy_destination\.to_tcp_proxy = true;\s*proxy_destination\.to_udp_proxy = true;\s*\}", r"RequestType::(\w+)"),
+    ("wkDispatchHandled", "command/src/state.rs", r"let result = match request_type \{([\s\S]*?)// This is to avoid the error message", r"RequestType::(\w+)\(\w+\) =>"),
+    ("wkDispatchPassthrough", "command/src/state.rs", r"((?:\|?\s*RequestType::\w+\(_\)\s*)+)=> Ok\(\(\)\),", r"RequestType::(\w+)"),
+    ("wkScatterWorkerRequest", "bin/src/command/requests.rs", r"RequestType::Status\(_\) => status\(self, client\),\s*((?:\|?\s*RequestType::\w+\(_\)\s*)+)=> \{\s*worker_request\(self, client, request_type\);", r"RequestType::(\w+)"),
+    ("wkScatterQueryClusters", "bin/src/command/requests.rs", r"((?:\|?\s*RequestType::\w+\(_\)\s*)+)=> \{\s*query_clusters\(self, client, request_type\);", r"RequestType::(\w+)"),
 ]
 
 
